@@ -78,6 +78,7 @@ pub fn run(p: &Program, record: bool) -> RunResult {
                 env.sort_by_key(|e| e.at);
                 st.env = env.into();
             }
+            crate::sig::begin_run(&sim);
             lp = Some(l);
         }
         _ => {
@@ -619,6 +620,11 @@ fn compute_must(sim: &Sim) {
                     }
                 }
             }
+            K::Sig(k) => {
+                if (0..4).any(|i| k.pending[i] && k.configured.contains(&(i as u8))) {
+                    must.insert(*id, Must::Callback);
+                }
+            }
             K::Trans(_) | K::Failed => {}
         }
     }
@@ -1013,6 +1019,18 @@ fn step_invariants(sim: &Rc<Sim>, p: &Program, i: usize) {
         return;
     }
     crate::adapter::step_invariants(sim);
+    if sim.is_dead() {
+        return;
+    }
+    // a Signals source whose last owner went away has been dropped: its mask is released
+    {
+        let mut st = sim.st.borrow_mut();
+        let gone: Vec<Id> = st.srcs.iter().filter(|(_, s)| matches!(&s.k, K::Sig(k) if k.alive) && s.sh.dropped.get() > 0).map(|(i, _)| *i).collect();
+        for id in gone {
+            crate::sig::source_dropped(&mut st, id);
+        }
+    }
+    crate::sig::check(sim, "step");
     if sim.is_dead() {
         return;
     }
